@@ -4,6 +4,7 @@ package main
 
 import (
 	"fmt"
+	"math/bits"
 	"strings"
 	"time"
 
@@ -42,7 +43,12 @@ func validityOp(now time.Time, v string, rel bool) string {
 	if rel {
 		r = "1"
 	}
-	return fmt.Sprintf("validity %d %s %s", now.UnixNano(), ds, r)
+	return fmt.Sprintf("validity %d %s %s %s", now.UnixNano(), ds, r, "t"+hx([]byte(v)))
+}
+
+// div128 divides the 128-bit number hi:lo by d (hi < d)
+func div128(hi, lo, d uint64) (uint64, uint64) {
+	return bits.Div64(hi%d, lo, d)
 }
 
 // the protocol line carries (now, parsed duration); for the replay the original text is appended as a 5th token
@@ -54,7 +60,9 @@ func replayC19(lines []string) []string {
 			var nowNs int64
 			fmt.Sscan(f[1], &nowNs)
 			v := "bogus"
-			if f[2] != "x" {
+			if len(f) >= 5 && strings.HasPrefix(f[4], "t") {
+				v = string(unhx(f[4][1:])) // the text as it was given
+			} else if f[2] != "x" {
 				var n int64
 				if strings.HasPrefix(f[2], "m") {
 					fmt.Sscan(f[2][1:], &n)
@@ -82,7 +90,7 @@ func normaliseValidity(s string) string {
 }
 
 func runC19(res *Result, d *Driver, g *Rng, tier string) {
-	res.Rule = "durations from -1 s to 100 years: every unit boundary ±1 ns/±1 s (59 s/60 s, 59 m 59 s/1 h, 23 h 59 m 59 s/24 h, 30 d 23 h 59 m 59 s/31 d, 32 d, 365 d, 100 y), sub-second fractions, random durations, unparsable texts; both forms; relative form on every whole minute below 31 days (thorough: every whole second); 'now' at random instants of 2000..2099 incl. leap days, year ends and sub-second parts; non-trivial = distinct (now, duration, form)"
+	res.Rule = "durations from -1 s to 100 years: every unit boundary ±1 ns/±1 s (59 s/60 s, 59 m 59 s/1 h, 23 h 59 m 59 s/24 h, 30 d 23 h 59 m 59 s/31 d, 32 d, 365 d, 100 y), sub-second fractions, random durations, unparsable texts, texts beyond the range of a Duration in every unit (counts whose product with the unit wraps modulo 2^63, 2^64, 2^65 to 0, 10 s, 1 h, 1 day, 30 days, ±1), near-miss syntax; both forms; relative form on every whole minute below 31 days (thorough: every whole second); 'now' at random instants of 2000..2099 incl. leap days, year ends and sub-second parts; non-trivial = distinct (now, duration, form)"
 	thorough := tier == "thorough"
 	var ops, goOut []string
 	day := 24 * time.Hour
@@ -95,6 +103,44 @@ func runC19(res *Result, d *Driver, g *Rng, tier string) {
 		}
 	}
 	durs = append(durs, "-1s", "-1ns", "", "abc", "1d", "5", "1h30", "1.5h", "90m", "744h", "768h", "1e3s", "9223372036s")
+	nFixed := len(durs)
+	// texts beyond the range of a Duration: in every unit, the counts whose product with the unit wraps modulo
+	// 2^63 / 2^64 / 2^65 to a small duration (0, 10 s, 1 h, 1 day, 30 days), and their neighbours; the largest
+	// representable text and the first one past it; near-miss syntax
+	{
+		units := []struct {
+			name string
+			ns   uint64
+		}{{"ns", 1}, {"us", 1e3}, {"µs", 1e3}, {"ms", 1e6}, {"s", 1e9}, {"m", 6e10}, {"h", 36e11}}
+		for _, u := range units {
+			for _, sh := range []uint{63, 64, 65} {
+				for _, small := range []uint64{0, 10e9, 3600e9, 86400e9, 30 * 86400e9} {
+					// smallest n with n*u.ns ≥ 2^sh + small, computed in 128 bits by hand: q = (2^sh + small + u.ns - 1) / u.ns
+					hi, lo := uint64(0), uint64(0)
+					switch sh {
+					case 63:
+						lo = 1 << 63
+					case 64:
+						hi = 1
+					case 65:
+						hi = 2
+					}
+					lo2 := lo + small + u.ns - 1
+					if lo2 < lo {
+						hi++
+					}
+					q, _ := div128(hi, lo2, u.ns)
+					for _, dn := range []int64{-1, 0, 1} {
+						durs = append(durs, fmt.Sprintf("%d%s", uint64(int64(q)+dn), u.name))
+					}
+				}
+			}
+		}
+		durs = append(durs, "2562047h47m16.854775807s", "2562047h47m16.854775808s", "2562047h48m", "9223372036.854775807s", "9223372036.854775808s",
+			"9223372036854775807ns", "9223372036854775808ns", "18446744073709551616ns", "99999999999999999999999s", "18446744084.0s", "0.000000000000000000001h",
+			"+5s", " 5s", "5s ", "5 s", "5S", ".5s", "5.s", "1h-5m", "--5s", "0x10s", "1_0s", "5sec", "1h1h", "1m30", "s", ".s", "-", "+", "0", "+0", "-0", "1.5.5s", "1e3", "٥s", "5s\x00", "5µs", "5μs", "5us")
+	}
+	nOverflowEnd := len(durs)
 	n := 600
 	if thorough {
 		n = 50000
@@ -112,14 +158,17 @@ func runC19(res *Result, d *Driver, g *Rng, tier string) {
 	}
 	for di, v := range durs {
 		for ni, now := range nows {
-			if di >= len(bounds)*6+13 && ni != di%len(nows) {
+			if di >= nOverflowEnd && ni != di%len(nows) {
 				continue // random durations: one instant each
+			}
+			if di >= nFixed && di < nOverflowEnd && ni >= 3 {
+				continue // out-of-range and near-miss texts: three instants each
 			}
 			for _, rel := range []bool{true, false} {
 				op := validityOp(now, v, rel)
 				out, s := goValidity(now, v, rel)
 				res.Eval(op, true)
-				if (di+ni)%3 == 0 || di < len(bounds)*6+13 {
+				if (di+ni)%3 == 0 || di < nOverflowEnd {
 					ops, goOut = append(ops, op), append(goOut, normaliseValidity(out))
 				}
 				dur, perr := time.ParseDuration(v)
